@@ -3,7 +3,7 @@ mod node;
 mod prog;
 mod gen_;
 
-use exec::{ExecCfg, Sched};
+use exec::ExecCfg;
 
 fn main() {
     let args: Vec<String> = std::env::args().collect();
@@ -18,12 +18,40 @@ fn main() {
     if quiet_panics {
         std::panic::set_hook(Box::new(|_| {}));
     }
-    let out = std::io::stdout();
     use std::io::Write;
+    if cases > 1 {
+        // One process per case: `futures::select!` draws from a thread-local xorshift state that survives
+        // from case to case, so a case would otherwise depend on its predecessors and not replay alone.
+        let exe = std::env::current_exe().expect("current_exe");
+        for n in first..first + cases {
+            let mut cmd = std::process::Command::new(&exe);
+            cmd.args(["--family", &family, "--seed", &seed.to_string(), "--cases", "1", "--first", &n.to_string()]);
+            if !quiet_panics {
+                cmd.arg("--show-panics").arg("1");
+            }
+            let st = cmd.status().expect("spawn case process");
+            if !st.success() {
+                let case_seed = seed.wrapping_mul(1_000_003).wrapping_add(n as u64);
+                println!("case {} {} {} crashed", n, family, case_seed);
+                println!("crash {:?}", st.code());
+                println!("end");
+            }
+        }
+        return;
+    }
+    let out = std::io::stdout();
     let mut out = std::io::BufWriter::new(out.lock());
     for n in first..first + cases {
         let case_seed = seed.wrapping_mul(1_000_003).wrapping_add(n as u64);
         let mut rng = exec::Rng::new(case_seed);
+        // vary the (otherwise fixed) initial state of select!'s generator with the case seed
+        for _ in 0..(case_seed % 61) {
+            futures::executor::block_on(async {
+                let mut a = futures::future::ready(());
+                let mut b = futures::future::ready(());
+                futures::select! { _ = a => (), _ = b => () }
+            });
+        }
         let case = gen_::generate(&family, &mut rng);
         node::reset_ids();
         prog::reset_ops();
